@@ -73,3 +73,13 @@ package internal
 //@ func (*jsonEncoder).Encode
 //@   requires j != nil && j.out != nil
 //@   modifies wrOut
+
+// The generic entry points, as used by the runner (C10/C11): assumed summaries (their parts
+// are specified above): writing touches only the output sink; reading consumes from the
+// input and fills the message.
+//@ func WriteDelimitedMessage
+//@   trusted
+//@   modifies wrOut, wireFmt
+//@ func ReadDelimitedMessage
+//@   trusted
+//@   modifies rdPos, onlyfresh(msg)
